@@ -37,8 +37,8 @@ ASSUMPTIONS = [
     "Python-level os.path.exists/islink/isfile/os.access never raise and are not faulted; subprocess-based helpers (pfiles, procfiles, swap -l, lsdev, entstat) are outside the model",
 ]
 MANIFEST = {
-    "level_text": "Machine-checked Lean 4 proofs over a model of the five non-Linux platform modules and the front end's platform-conditional post-processing: C20_error_contract_partial (for every platform module, every errno in {ESRCH, ENOENT, EPERM, EACCES, EIO, EINVAL}, every winerror, every pid and every REAL pid state — gone / zombie / alive, not what the module's probe can tell — outside the region Spec.knownZombieDeviation, the decorator built from the translator's except-clause table produces exactly the cell of the contract table; full strength on BSD / macOS / Windows: C20_error_contract_bsd_osx_windows; the full statement C20_error_contract_Full is REFUTED for Solaris / AIX by C20_error_contract_counterexample and the code's behaviour in the region is characterised exactly by C20_error_contract_deviation: ZombieProcess where the cell is NoSuchProcess — finding C20-sunos-aix-exists-means-zombie), corollary C20_error_contract_methods, C20_all_methods_wrapped (every undecorated method justified one by one, helpers only reachable from decorated methods), C20_inner_handlers_transcribed, C20_method_faults_within_spec_partial (every native call of every method × error × pid state: outcome within the specification's allowed set or, on Solaris / AIX only, the one known zombie deviation in its region; by decide over the generated traces; no call site excluded, for the code as it is — obligations cfg_win_ppid_wrapped and cfg_win_maps_loop_guarded; strict full strength on the BSDs, macOS and Windows: C20_method_faults_within_spec_bsd_osx_windows; the strict statement C20_method_faults_within_spec_Full is refuted by C20_method_faults_not_full; counterexamples kept for the unrepaired Windows configuration), C20_zombie_codes_documented / C20_zombie_probe_sees_documented_codes / C20_error_contract_status_codes (the contract in terms of the native status code of the probe record: is_zombie's comparison, a translator fact, says zombie for exactly the codes the platform documents — OpenBSD SDEAD and SZOMB), C20_two_faults_within_spec (same tolerance; two-fault sequences: for every generated row of first faults after which a method goes on — alternative path after an inner handler, or re-run by the partial-copy retry — every later native call × second error × pid state is within the specification; any first error), C20_two_faults_first_ends, C20_slot_maps_match_native, C20_slots_match, C20_all_record_reads_named (every read of a native one-shot record on any path is a named-slot read), C20_fallback_slots_match (the slot reads on except-handler paths are exactly the documented fall-backs), C20_ntuple_types, C20_win_pmem_layout (decide over generated tables), C20_api_names (documented ⊆ exposed per platform), C20_mac_padding, C20_broadcast_takes_effect and C20_broadcast6_takes_effect (IPv4 on 32 bits and IPv6 on 128 bits against bit-level specifications; post-processing takes effect; counterexample for the pre-fix front end), C20_front_branches_classified (every platform-conditional branch inside a function or class of the front end is on a classified list) with C20_front_ppid / _name / _username / _pid_exists / _affinity_all_cpus / _disk_io_kwargs for the ones that transform a value. Tie: translator (except clauses, decorators, slot maps, feeds, record reads, fall-back reads, single- and two-fault traces, front-end branches, C comments, docs) + a differential run of the REAL platform modules and front end under platform emulation over a scripted native layer (full single-fault sweep; two-fault sequences: sampled at the quick tier, the whole domain at the thorough tier). Round 2/3: C20_native_slot_order_partial (slot i of every slot map = i-th argument of the parsed Py_BuildValue call of the C function and that argument is the struct member the slot is NAMED FOR — reviewed table of INTENDED members; the positional native tuples too; stub record lengths; all slots but one) with C20_native_slot_order_counterexample (the full statement C20_native_slot_order_Full is false: on FreeBSD / OpenBSD / NetBSD the saved_gid slot is fed from the saved UID member — finding C20-bsd-saved-gid, PENDING(fixes/C20-bsd-saved-gid.diff)); C20_api_fields (every namedtuple field docs/index.rst documents for a platform — bullets with platform notes, per-platform table columns in order — is a field of that platform's namedtuple; six Solaris/AIX gaps listed and kept exact by C20_api_fields_gaps_characterisation); C20_front_ident_partial (+ _bsd_osx_windows full, _counterexample_sunos) / _ident_fast_only / cfg_ident_fast_only (Process(pid): Windows identity uses create_time(fast_only=True), AccessDenied → (pid, None)), C20_front_eq (Open/NetBSD zombie equality, all identities), C20_front_send_signal_posix (OpenBSD zombie branch), C20_front_send_signal_windows (+ _contract): all driven on the REAL front end over the REAL platform module under each emulated identity.",
-    "level_note": "Trusted: Lean kernel + {propext, Classical.choice, Quot.sound}; the translator; the emulation layer (stub natives, scripted os); CPython's errno→exception map. Not executed: the native C layers of the other OSes. Partial: two open findings — C20-sunos-aix-exists-means-zombie (Solaris / AIX report ZombieProcess for a process that merely still exists; theorems _partial with the region excluded and characterised) and C20-bsd-saved-gid (native saved_gid slot; PENDING repair); two-fault sequences start from first faults after which the method still returns (the decorator's os.kill probe is faulted with EPERM only); the Windows partial-copy retry loop is a closed form, not a recursive loop; Spec.recoverable / Model.inner are keyed by the same (method, call) table (characterisation of the handlers, tied by the differential run); every public method's returned value is compared with an expected value (per-item tuples by hand from the native item layout; scalars a reviewed literal); every platform-conditional front-end branch that transforms a value is now modelled (round 2: _get_ident, __eq__, _send_signal, send_signal); documented FIELDS: six Solaris/AIX gaps (nice, active, inactive marked *(UNIX)* in the docs) are characterised, not findings (the statement promises function and constant names); the native C code is parsed, not compiled.",
+    "level_text": "Machine-checked Lean 4 proofs over a model of the five non-Linux platform modules and the front end's platform-conditional post-processing: C20_error_contract_partial (for every platform module, every errno in {ESRCH, ENOENT, EPERM, EACCES, EIO, EINVAL}, every winerror, every pid and every REAL pid state — gone / zombie / alive, not what the module's probe can tell — outside the region Spec.knownZombieDeviation, the decorator built from the translator's except-clause table produces exactly the cell of the contract table; full strength on BSD / macOS / Windows: C20_error_contract_bsd_osx_windows; the full statement C20_error_contract_Full is REFUTED for Solaris / AIX by C20_error_contract_counterexample and the code's behaviour in the region is characterised exactly by C20_error_contract_deviation: ZombieProcess where the cell is NoSuchProcess — finding C20-sunos-aix-exists-means-zombie), corollary C20_error_contract_methods, C20_all_methods_wrapped (every undecorated method justified one by one, helpers only reachable from decorated methods), C20_inner_handlers_transcribed, C20_method_faults_within_spec_partial (every native call of every method × error × pid state: outcome within the specification's allowed set or, on Solaris / AIX only, the one known zombie deviation in its region; by decide over the generated traces; no call site excluded, for the code as it is — obligations cfg_win_ppid_wrapped and cfg_win_maps_loop_guarded; strict full strength on the BSDs, macOS and Windows: C20_method_faults_within_spec_bsd_osx_windows; the strict statement C20_method_faults_within_spec_Full is refuted by C20_method_faults_not_full; counterexamples kept for the unrepaired Windows configuration), C20_zombie_codes_documented / C20_zombie_probe_sees_documented_codes / C20_error_contract_status_codes (the contract in terms of the native status code of the probe record: is_zombie's comparison, a translator fact, says zombie for exactly the codes the platform documents — OpenBSD SDEAD and SZOMB), C20_two_faults_within_spec (same tolerance; two-fault sequences: for every generated row of first faults after which a method goes on — alternative path after an inner handler, or re-run by the partial-copy retry — every later native call × second error × pid state is within the specification; any first error), C20_two_faults_first_ends, C20_slot_maps_match_native, C20_slots_match, C20_all_record_reads_named (every read of a native one-shot record on any path is a named-slot read), C20_fallback_slots_match (the slot reads on except-handler paths are exactly the documented fall-backs), C20_ntuple_types, C20_win_pmem_layout (decide over generated tables), C20_api_names (documented ⊆ exposed per platform), C20_mac_padding, C20_broadcast_takes_effect and C20_broadcast6_takes_effect (IPv4 on 32 bits and IPv6 on 128 bits against bit-level specifications; post-processing takes effect; counterexample for the pre-fix front end), C20_front_branches_classified (every platform-conditional branch inside a function or class of the front end is on a classified list) with C20_front_ppid / _name / _username / _pid_exists / _affinity_all_cpus / _disk_io_kwargs for the ones that transform a value. Tie: translator (except clauses, decorators, slot maps, feeds, record reads, fall-back reads, single- and two-fault traces, front-end branches, C comments, docs) + a differential run of the REAL platform modules and front end under platform emulation over a scripted native layer (full single-fault sweep; two-fault sequences: sampled at the quick tier, the whole domain at the thorough tier). Round 2/3: C20_native_slot_order (at full strength for the code as it is: slot i of every slot map = i-th argument of the parsed Py_BuildValue call of the C function and that argument is the struct member the slot is NAMED FOR — reviewed table of INTENDED members; the positional native tuples too; stub record lengths; every slot, since /repo c9c8f6b repaired the BSD saved_gid slot that was fed from the saved UID member — defect C20-bsd-saved-gid, fixed; C20_saved_gid_is_not_saved_uid names the slot, C20_native_slot_order_partial is kept for a tree without the repair); C20_api_fields (every namedtuple field docs/index.rst documents for a platform — bullets with platform notes, per-platform table columns in order — is a field of that platform's namedtuple; six Solaris/AIX gaps listed and kept exact by C20_api_fields_gaps_characterisation); C20_front_ident_partial (+ _bsd_osx_windows full, _counterexample_sunos) / _ident_fast_only / cfg_ident_fast_only (Process(pid): Windows identity uses create_time(fast_only=True), AccessDenied → (pid, None)), C20_front_eq (Open/NetBSD zombie equality, all identities), C20_front_send_signal_posix (OpenBSD zombie branch), C20_front_send_signal_windows (+ _contract): all driven on the REAL front end over the REAL platform module under each emulated identity.",
+    "level_note": "Trusted: Lean kernel + {propext, Classical.choice, Quot.sound}; the translator; the emulation layer (stub natives, scripted os); CPython's errno→exception map. Not executed: the native C layers of the other OSes. Partial: one open finding — C20-sunos-aix-exists-means-zombie (Solaris / AIX report ZombieProcess for a process that merely still exists; theorems _partial with the region excluded and characterised); two-fault sequences start from first faults after which the method still returns (the decorator's os.kill probe is faulted with EPERM only); the Windows partial-copy retry loop is a closed form, not a recursive loop; Spec.recoverable / Model.inner are keyed by the same (method, call) table (characterisation of the handlers, tied by the differential run); every public method's returned value is compared with an expected value (per-item tuples by hand from the native item layout; scalars a reviewed literal); every platform-conditional front-end branch that transforms a value is now modelled (round 2: _get_ident, __eq__, _send_signal, send_signal); documented FIELDS: six Solaris/AIX gaps (nice, active, inactive marked *(UNIX)* in the docs) are characterised, not findings (the statement promises function and constant names); the native C code is parsed, not compiled.",
     "technique": "Lean 4 case analysis + decide over translator-generated tables (Python AST, parsed C Py_BuildValue calls, docs); platform emulation with scripted native layer for the differential correspondence",
     "design_ref": "DESIGN.md §5 C20",
 }
